@@ -374,7 +374,7 @@ fn all_patterns(out: &mut Out, rng: &mut Rng, base: &[u8], nrand: usize) {
 }
 
 pub fn run(out: &mut Out, rng: &mut Rng, thorough: bool) {
-    let k = if thorough { 10 } else { 1 };
+    let k = if thorough { 20 } else { 1 };
 
     // 1. the table, all 256 rows (+ the bounds check just outside)
     for i in 0..256 {
@@ -475,7 +475,7 @@ pub fn run(out: &mut Out, rng: &mut Rng, thorough: bool) {
         let i = (rng.below(5) + 2) as usize;
         bases.push(unhex(KNOWN_VALID[i]).unwrap());
     }
-    for _ in 0..(if thorough { 50 } else { 7 }) {
+    for _ in 0..(if thorough { 150 } else { 7 }) {
         bases.push(valid_df17(rng));
     }
     for b in &bases {
